@@ -1141,6 +1141,15 @@ def gen_rat_func(rng, ity, pty):
         ph = {"v": vnum(yb, pty) if pty in FLOAT_TYPES else vi(round_half_even(yb)), "t": hi["t"]}
         if f < 0:
             pl, ph = ph, pl
+        # (round 9) the inverse direction restricted on one side only / not at all: a missing limit of a rational function is "unbounded"
+        # (a TEXTTABLE scale with one limit is the single value) -- the inverse pair stays exact on the image
+        r2 = rng.random()
+        if r2 < 0.15:
+            pl = None
+        elif r2 < 0.3:
+            ph = None
+        elif r2 < 0.36:
+            pl = ph = None
         # coefficients of the inverse are values of the internal type
         exact = (pty in FLOAT_TYPES or c == 1) and (ity in FLOAT_TYPES or True)
         if ity in INT_TYPES:
